@@ -330,6 +330,13 @@ class VExc(V):
         return "VExc(%s%s)" % (self.cls, "" if self.exact else "+")
 
 
+class VStar(V):
+    """`*obj` where obj is an opaque argument tuple."""
+
+    def __init__(self, obj):
+        self.obj = obj
+
+
 class VLambda(V):
     def __init__(self, node, env):
         self.node, self.env = node, env
